@@ -51,7 +51,28 @@ func SkipOneFast(json string, pos int) (string, error) {
 	return json[start:pos], nil
 }
 
+// isJSONNumber reports whether raw is exactly one JSON number literal. The grammar of strconv is a
+// superset of JSON's ("NaN", "inf", hex floats, a leading '+', ".5", "5.", "1_0", leading zeros), so
+// text taken from inside quotes is checked before it is converted.
+func isJSONNumber(raw string) bool {
+	if !ValidNumberFast(raw) {
+		return false
+	}
+	i := 0
+	if raw[0] == '-' {
+		i = 1
+	}
+	return !(len(raw) > i+1 && raw[i] == '0' && raw[i+1] >= '0' && raw[i+1] <= '9')
+}
+
+func errNotNumber(fn string, raw string) error {
+	return &strconv.NumError{Func: fn, Num: raw, Err: strconv.ErrSyntax}
+}
+
 func ParseI64(raw string) (int64, error) {
+	if !isJSONNumber(raw) {
+		return 0, errNotNumber("ParseInt", raw)
+	}
 	i64, err := strconv.ParseInt(raw, 10, 64)
 	if err != nil {
 		return 0, err
@@ -69,6 +90,9 @@ func ParseBool(raw string) (bool, error) {
 }
 
 func ParseU64(raw string) (uint64, error) {
+	if !isJSONNumber(raw) {
+		return 0, errNotNumber("ParseUint", raw)
+	}
 	u64, err := strconv.ParseUint(raw, 10, 64)
 	if err != nil {
 		return 0, err
@@ -77,6 +101,9 @@ func ParseU64(raw string) (uint64, error) {
 }
 
 func ParseF64(raw string) (float64, error) {
+	if !isJSONNumber(raw) {
+		return 0, errNotNumber("ParseFloat", raw)
+	}
 	f64, err := strconv.ParseFloat(raw, 64)
 	if err != nil {
 		return 0, err
